@@ -326,8 +326,19 @@ void InterfaceMakerPythonSimple::write_function_instance(ostream &out, Interface
       parameter_list += ", &" + param_name;
       extra_convert += " PyObject *" + param_name + "_uint = PyNumber_Long(" + param_name + ");";
       extra_param_check += "|| (" + param_name + "_uint == nullptr)";
-      pexpr_string = "(unsigned int)PyLong_AsUnsignedLong(" + param_name + "_uint)";
+      if (TypeManager::is_long(type)) {
+        // Don't truncate an unsigned long to 32 bits.
+        pexpr_string = "(unsigned long)PyLong_AsUnsignedLong(" + param_name + "_uint)";
+      } else {
+        pexpr_string = "(unsigned int)PyLong_AsUnsignedLong(" + param_name + "_uint)";
+      }
       extra_cleanup += " Py_XDECREF(" + param_name + "_uint);";
+
+    } else if (TypeManager::is_long(type)) {
+      // A long is wider than an int on LP64 platforms.
+      out << "long " << param_name;
+      format_specifiers += "l";
+      parameter_list += ", &" + param_name;
 
     } else if (TypeManager::is_integer(type)) {
       out << "int " << param_name;
